@@ -686,7 +686,10 @@ impl TypeEntry {
             }
 
             TypeEntryDetails::Boolean => true,
-            TypeEntryDetails::Integer(_) => true,
+            // The NonZero integer types have no default value.
+            TypeEntryDetails::Integer(name) => {
+                impl_name != TypeSpaceImpl::Default || !name.contains("NonZero")
+            }
             TypeEntryDetails::Float(_) => true,
             TypeEntryDetails::String => true,
 
